@@ -69,6 +69,8 @@ def load_configs(rng: random.Random, quick: bool) -> list[dict]:
             doc = {"expand_from": "bank_codes", "expand_into": "bank_code", "entries": []}
             for nm, codes in ents:
                 ent = {"country_code": "DK", "name": nm, "bank_codes": codes}
+                if nm == "Y":
+                    ent["bank_code"] = ""          # a stale value of the key the entry is expanded into
                 if prim is not None:
                     ent["primary"] = prim
                 doc["entries"].append(ent)
